@@ -37,6 +37,26 @@ theorem C17_rearrange_applyVerb (v : Nat) (hv : v < 16) (σ : Asg G) :
     applyVerb v (inst σ (verbTable v).1) = some (inst σ (verbTable v).2) :=
   applyVerb_inst σ v hv
 
+/-- **C17_rearrange_transition** (`_partial`: cluster level 2). The whole `RearrangementCtx::transition`
+    for an entry whose flags are just a verb, on a buffer at cluster level CHARACTERS (where `merge_clusters`
+    leaves the records alone): the marked range is rewritten exactly as Apple's table says and nothing
+    else changes. At levels 0/1 the same holds for the records *after* the two `merge_clusters` calls
+    (`C17_rearrange` is stated on the vector, whatever its cluster values); that the merges keep glyph ids
+    and positions is covered by the correspondence only. -/
+theorem C17_rearrange_transition_partial (v : Nat) (hv : v < 16) (hv0 : v ≠ 0) (σ : Asg G) (pre post : List G)
+    (b : Buf) (cs : CS) (ns x1 x2 : Nat)
+    (hinfo : b.info = (pre ++ inst σ (verbTable v).1 ++ post).toArray) (hlvl : b.level = 2)
+    (hs : cs.start = pre.length) (he : cs.end_ = pre.length + (inst σ (verbTable v).1).length)
+    (hlen : (inst σ (verbTable v).1).length ≤ RbModel.Gen.Morx.MAX_CONTEXT_LENGTH)
+    (hne : 0 < (inst σ (verbTable v).1).length) :
+    rearrTransition cs ⟨ns, v, x1, x2⟩ b =
+      .ok (cs, { b with info := (pre ++ inst σ (verbTable v).2 ++ post).toArray }) :=
+  rearrTransition_level2 v hv hv0 σ pre post b cs ns x1 x2 hinfo hlvl hs he hlen hne
+
+example : ∃ (σ : Asg G), 0 < (inst σ (verbTable 3).1).length ∧
+    (inst σ (verbTable 3).1).length ≤ RbModel.Gen.Morx.MAX_CONTEXT_LENGTH :=
+  ⟨⟨⟨1, 0⟩, ⟨2, 1⟩, ⟨3, 2⟩, ⟨4, 3⟩, [⟨5, 4⟩, ⟨6, 5⟩]⟩, by decide, by decide⟩
+
 /-! ## the driver terminates -/
 
 /-- **C17_drive_terminates** (in-place subtables: rearrangement and contextual).
@@ -212,23 +232,26 @@ theorem known_C17_noncontextual_range :
     Instantiated with the real action for chains of non-contextual subtables (second statement). -/
 theorem C02_bracket_morx (act : Subtable → Array Range → Buf → M Buf) (P : Subtable → Prop)
     (ha : KeepsOrder act P) (chains : List Chain) (flags : List (Array Range)) (b b' : Buf)
-    (hP : ∀ ch ∈ chains, ∀ s ∈ ch.subtables, P s) (hb : b.len ≤ b.info.size)
+    (hP : ∀ ch ∈ chains, ∀ s ∈ ch.subtables, P s) (hb : b.len ≤ b.info.size) (ho : b.haveOutput = false)
     (h : applyChainsWith act chains flags b = .ok b') :
     b'.clusters = b.clusters :=
-  (applyChainsWith_keeps ha chains flags b b' hP hb h).2
+  (applyChainsWith_keeps ha chains flags b b' hP hb ho h).2
 
-theorem C02_bracket_morx_noncontextual (chains : List Chain) (flags : List (Array Range)) (b b' : Buf)
-    (hP : ∀ ch ∈ chains, ∀ s ∈ ch.subtables, s.isNonContextual) (hb : b.len ≤ b.info.size)
-    (h : applyChains chains flags b = .ok b') :
+/-- the real subtable actions: every chain list made of non-contextual and contextual subtables (any state
+    tables, lookups, coverage bits, flags, ranges) leaves the cluster sequence of the buffer as it was. -/
+theorem C02_bracket_morx_inplace (chains : List Chain) (flags : List (Array Range)) (b b' : Buf)
+    (hP : ∀ ch ∈ chains, ∀ s ∈ ch.subtables, s.isInPlaceSubst) (hb : b.len ≤ b.info.size)
+    (ho : b.haveOutput = false) (h : applyChains chains flags b = .ok b') :
     b'.clusters = b.clusters :=
-  C02_bracket_morx realAct _ realAct_keeps_nc chains flags b b' hP hb h
+  C02_bracket_morx realAct _ realAct_keeps_subst chains flags b b' hP hb ho h
 
 /-- non-vacuity: a right-to-left buffer and a descending layout-order subtable. -/
 example : ∃ (chains : List Chain) (b : Buf),
-    (∀ ch ∈ chains, ∀ s ∈ ch.subtables, s.isNonContextual) ∧ b.len ≤ b.info.size ∧ b.clusters = [2, 1, 0] :=
+    (∀ ch ∈ chains, ∀ s ∈ ch.subtables, s.isInPlaceSubst) ∧ b.len ≤ b.info.size ∧ b.haveOutput = false ∧
+    b.clusters = [2, 1, 0] :=
   ⟨[⟨1, [], [⟨0x40, 1, .noncontextual (fun _ => some 7)⟩]⟩],
    { (default : Buf) with info := #[⟨3, 2⟩, ⟨4, 1⟩, ⟨5, 0⟩], len := 3, backward := true },
-   by intro ch hc s hs; simp at hc; subst hc; simp at hs; subst hs; exact ⟨_, rfl⟩,
-   by decide, by rfl⟩
+   by intro ch hc s hs; simp at hc; subst hc; simp at hs; subst hs; exact Or.inl ⟨_, rfl⟩,
+   by decide, rfl, by rfl⟩
 
 end RbModel.Morx
